@@ -8,6 +8,7 @@ import (
 	"fmt"
 	"io"
 	"os"
+	"sync"
 	"testing"
 
 	"github.com/ipfs/go-cid"
@@ -287,4 +288,169 @@ func vDSCopyInto(src, dst datastore.Datastore) {
 			panic(err)
 		}
 	}
+}
+
+// ---- recording datastore (DESIGN.md 3.8)
+
+type recOp struct {
+	Key   string
+	Value []byte // nil = delete
+}
+
+type recEntry struct {
+	Seq  int
+	Kind string // put | delete | batch
+	Ops  []recOp
+}
+
+// recDS journals every mutation, applies batches atomically (as badger does)
+// and calls Hook before every operation.
+type recDS struct {
+	mu      sync.Mutex
+	m       map[string][]byte
+	Journal []recEntry
+	Hook    func(op string, key string)
+	PutHook func(key string, value []byte)
+	NoBatch bool // behave as a datastore without batching support
+}
+
+func newRecDS() *recDS { return &recDS{m: map[string][]byte{}} }
+
+func (r *recDS) hook(op, key string) {
+	if r.Hook != nil {
+		r.Hook(op, key)
+	}
+}
+
+func (r *recDS) Get(_ context.Context, key datastore.Key) ([]byte, error) {
+	r.hook("get", key.String())
+	r.mu.Lock()
+	defer r.mu.Unlock()
+	v, ok := r.m[key.String()]
+	if !ok {
+		return nil, datastore.ErrNotFound
+	}
+	return append([]byte(nil), v...), nil
+}
+
+func (r *recDS) Has(_ context.Context, key datastore.Key) (bool, error) {
+	r.hook("has", key.String())
+	r.mu.Lock()
+	defer r.mu.Unlock()
+	_, ok := r.m[key.String()]
+	return ok, nil
+}
+
+func (r *recDS) GetSize(_ context.Context, key datastore.Key) (int, error) {
+	r.hook("getsize", key.String())
+	r.mu.Lock()
+	defer r.mu.Unlock()
+	v, ok := r.m[key.String()]
+	if !ok {
+		return -1, datastore.ErrNotFound
+	}
+	return len(v), nil
+}
+
+func (r *recDS) Query(_ context.Context, q dsq.Query) (dsq.Results, error) {
+	r.hook("query", q.Prefix)
+	r.mu.Lock()
+	var es []dsq.Entry
+	for k, v := range r.m {
+		es = append(es, dsq.Entry{Key: k, Value: append([]byte(nil), v...), Size: len(v)})
+	}
+	r.mu.Unlock()
+	return dsq.NaiveQueryApply(q, dsq.ResultsWithEntries(q, es)), nil
+}
+
+func (r *recDS) Put(_ context.Context, key datastore.Key, value []byte) error {
+	r.hook("put", key.String())
+	if r.PutHook != nil {
+		r.PutHook(key.String(), value)
+	}
+	r.mu.Lock()
+	defer r.mu.Unlock()
+	v := append([]byte(nil), value...)
+	r.m[key.String()] = v
+	r.Journal = append(r.Journal, recEntry{Seq: len(r.Journal), Kind: "put", Ops: []recOp{{key.String(), v}}})
+	return nil
+}
+
+func (r *recDS) Delete(_ context.Context, key datastore.Key) error {
+	r.hook("delete", key.String())
+	r.mu.Lock()
+	defer r.mu.Unlock()
+	delete(r.m, key.String())
+	r.Journal = append(r.Journal, recEntry{Seq: len(r.Journal), Kind: "delete", Ops: []recOp{{key.String(), nil}}})
+	return nil
+}
+
+func (r *recDS) Sync(context.Context, datastore.Key) error { return nil }
+func (r *recDS) Close() error                              { return nil }
+
+type recBatch struct {
+	r   *recDS
+	ops []recOp
+}
+
+func (r *recDS) Batch(context.Context) (datastore.Batch, error) {
+	if r.NoBatch {
+		return nil, datastore.ErrBatchUnsupported
+	}
+	return &recBatch{r: r}, nil
+}
+
+func (b *recBatch) Put(_ context.Context, key datastore.Key, value []byte) error {
+	b.ops = append(b.ops, recOp{key.String(), append([]byte(nil), value...)})
+	return nil
+}
+
+func (b *recBatch) Delete(_ context.Context, key datastore.Key) error {
+	b.ops = append(b.ops, recOp{key.String(), nil})
+	return nil
+}
+
+func (b *recBatch) Commit(context.Context) error {
+	b.r.hook("commit", "")
+	b.r.mu.Lock()
+	defer b.r.mu.Unlock()
+	for _, op := range b.ops {
+		if op.Value == nil {
+			delete(b.r.m, op.Key)
+		} else {
+			b.r.m[op.Key] = op.Value
+		}
+	}
+	b.r.Journal = append(b.r.Journal, recEntry{Seq: len(b.r.Journal), Kind: "batch", Ops: b.ops})
+	b.ops = nil
+	return nil
+}
+
+// StateAt materialises the datastore content after the first i journal entries
+// on top of the base content.
+func recStateAt(base map[string][]byte, journal []recEntry, i int) *recDS {
+	n := newRecDS()
+	for k, v := range base {
+		n.m[k] = append([]byte(nil), v...)
+	}
+	for _, e := range journal[:i] {
+		for _, op := range e.Ops {
+			if op.Value == nil {
+				delete(n.m, op.Key)
+			} else {
+				n.m[op.Key] = append([]byte(nil), op.Value...)
+			}
+		}
+	}
+	return n
+}
+
+func (r *recDS) snapshot() map[string][]byte {
+	r.mu.Lock()
+	defer r.mu.Unlock()
+	c := make(map[string][]byte, len(r.m))
+	for k, v := range r.m {
+		c[k] = append([]byte(nil), v...)
+	}
+	return c
 }
